@@ -16,6 +16,7 @@ RULE = ('random well-typed trees over Int/Id/Mem(with and without segment)/Op/Co
 RULE += ' Round 6: constants with the top bit set are twinned with the same bit pattern held as a signed constant (equal constants must hash equally); slices are twinned with windows whose bounds have the same xor / the same sum.'
 RULE += ' Round 7: 64-bit constants twinned with the constant of the same Python hash; an assignment whose destination identifier is replaced by a slice of a 16-, 32- or 64-bit location must assign exactly those bits.'
 RULE += " Round 9: replacement maps whose values are themselves keys (exchange, chain, rotation over the tree's own leaves) against simultaneous substitution."
+RULE += ' Round 10: the equality / hash laws on nodes the library itself built or edited: every node of expr_simp(e), e.copy(), e.canonize(), expr_simp(expr_simp(e)) and of a substituted tree against an independently built node of the same structure (rule templates of C05, slice/compose templates, random trees).'
 ASSUMPTIONS = ['irsem is the meaning of the IR (self-test run by setup)', 'segment annotations do not take part in the value (flat memory)']
 
 
@@ -553,7 +554,71 @@ def make_tree(rng):
 
 def shards(tier, seed):
     n = 64 if tier == 'quick' else 1600
-    return [('rand', i) for i in range(n)] + [('fixed',)]
+    return [('rand', i) for i in range(n)] + [('fixed',)] + [('produced', i) for i in range(8)]
+
+
+def produced_nodes(sh, e, tag):
+    """Equality / hash laws on nodes the LIBRARY built or edited (the other laws look at trees the harness built): every node of
+    expr_simp(e), e.copy(), e.canonize() and of a substituted tree must equal an independently built node of the same structure
+    and hash like it (a hash cached before an in-place edit, a memo attribute that takes part in the comparison ... show here)."""
+    from miasmx.expression import expression_helper as eh
+    ex, mi = exprgen.M()
+    c = exprgen.canon(e)
+    outs = []
+    for name, f in (('expr_simp', lambda t: eh.expr_simp(t)), ('copy', lambda t: t.copy()), ('canonize', lambda t: t.canonize() if hasattr(t, 'canonize') else None),
+                    ('simp-of-copy', lambda t: eh.expr_simp(t.copy())), ('simp-twice', lambda t: eh.expr_simp(eh.expr_simp(t)))):
+        try:
+            r = f(exprgen.fresh_copy(e))
+        except Exception:
+            sh.counters['produced_raises:' + name] += 1
+            continue
+        if r is not None and hasattr(r, 'visit'):
+            outs.append((name, r))
+    leaves = [t for t in exprgen.subterms(e) if t.__class__.__name__ == 'ExprId']
+    if len(leaves) >= 1:
+        try:
+            src = exprgen.fresh_copy(e)
+            l0 = leaves[0]
+            outs.append(('replace_expr', src.replace_expr({l0: ex.ExprOp('+', l0, exprgen.Int(1, l0.size))})))
+        except Exception:
+            sh.counters['produced_raises:replace_expr'] += 1
+    for name, r in outs:
+        for n in exprgen.subterms(r):
+            k = n.__class__.__name__
+            try:
+                tw = exprgen.fresh_copy(n)
+            except Exception:
+                continue
+            sh.case(('produced', name, c, exprgen.canon(n)), cls='produced:%s/%s' % (name, k))
+            wit = {'tree': c, 'str': str(e), 'producer': name, 'node': exprgen.canon(n), 'produced': True}
+            try:
+                if not (n == tw) or (n != tw) or not (tw == n):
+                    sh.violation('eq-twin-unequal/%s/produced-by-%s' % (k, name), 'a node of %s(%s) compares unequal to an independently built node of the same structure: %s' % (name, e, n), wit)
+                elif hash(n) != hash(tw):
+                    sh.violation('eq-without-hash/%s/produced-by-%s' % (k, name), 'a node of %s(%s) equals an independently built node of the same structure but hashes differently: %s' % (name, e, n), wit)
+                elif len({n, tw}) != 1 or tw not in {n: 1}:
+                    sh.violation('eq-without-hash/%s/produced-by-%s/set' % (k, name), 'a node of %s(%s) and its independently built twin are two members of a set: %s' % (name, e, n), wit)
+            except Exception as exn:
+                sh.violation('eq-raises:%s/%s/produced-by-%s' % (type(exn).__name__, k, name), '%r comparing a node of %s(%s) with its twin' % (exn, name, e), wit)
+
+
+def produced_corpus(part, tier, seed):
+    from vf.checks import c05
+    out = []
+    j = 0
+    for fam, t in c05.slice_compose_templates():
+        if j % 8 == part:
+            out.append(t)
+        j += 1
+    for w in (8, 32) if tier == 'quick' else (1, 8, 16, 32, 64):
+        for fam, t in c05.templates(w):
+            if j % 8 == part and (tier != 'quick' or j % 3 == 0):
+                out.append(t)
+            j += 1
+    rng = common.rng_for(seed, 'C15produced', part)
+    for i in range(60 if tier == 'quick' else 600):
+        out.append(make_tree(rng))
+    return out
 
 
 def fixed_trees():
@@ -596,6 +661,12 @@ def run_shard(shard, tier, seed):
         for i, e in enumerate(fixed_trees()):
             check_tree(sh, e, rng, ('f', i))
         return sh
+    if shard[0] == 'produced':
+        for e in produced_corpus(shard[1], tier, seed):
+            if e.__class__.__name__ == 'ExprAff' or exprgen.count_nodes(e) < 2:
+                continue
+            produced_nodes(sh, e, shard[1])
+        return sh
     rng = common.rng_for(seed, 'C15', shard[1])
     n = 120 if tier == 'quick' else 250
     for i in range(n):
@@ -610,6 +681,9 @@ def replay(w):
     # witnesses carry the canonical tree; rebuild it through a tiny parser
     sh = common.Shard()
     e = parse_canon(w['tree'])
+    if w.get('produced'):
+        produced_nodes(sh, e, 0)
+        return [(v['key'], v['detail']) for v in sh.violations]
     check_tree(sh, e, common.rng_for(0, 'replay'), ('replay',))
     return [(v['key'], v['detail']) for v in sh.violations]
 
